@@ -12,6 +12,9 @@ CACHE = "resolvo::solver::cache::SolverCache::"
 ENC = "resolvo::solver::encoding::Encoder::"
 SOLVER = "resolvo::solver::Solver::"
 
+# the shared "register a candidate with its package's at-most-one tracker" routine (introduced by the D11 fix)
+AFMC = "resolvo::solver::SolverState::add_forbid_multiple_clauses"
+
 P_GET_CANDIDATES = PROVIDER + "::get_candidates"
 P_GET_DEPENDENCIES = PROVIDER + "::get_dependencies"
 P_FILTER = PROVIDER + "::filter_candidates"
